@@ -1447,6 +1447,11 @@ func (c *Client) sendSingleMsg(client *smtp.Client, message *Msg) error {
 	}
 	_, err = message.WriteTo(writer)
 	if err != nil {
+		// The message has been transmitted only partially. SMTP has no means to abort a DATA phase, and
+		// any further command on this connection would implicitly terminate the data with the
+		// end-of-data marker, making the server accept the truncated message. The only way to discard
+		// it is to drop the connection.
+		_ = client.Close()
 		return &SendError{
 			Reason: ErrWriteContent, errlist: []error{err}, isTemp: isTempError(err),
 			affectedMsg: message, errcode: errorCode(err),
